@@ -7,6 +7,7 @@ import (
 	"flag"
 	"fmt"
 	"os"
+	"time"
 )
 
 func main() {
@@ -23,6 +24,17 @@ func main() {
 	}
 	w := bufio.NewWriterSize(f, 1<<20)
 	stats := map[string]int{}
+	// these engines finish in seconds (quick) or a few minutes (thorough): a run that does not is stuck in the
+	// library (a call that never returns, a goroutine that spins)
+	limit := 10 * time.Minute
+	if *tier == "thorough" {
+		limit = 40 * time.Minute
+	}
+	time.AfterFunc(limit, func() {
+		w.Flush()
+		fmt.Fprintf(os.Stderr, "panic: the %s engine did not finish within %v: a library call never returned\n", *engine, limit)
+		os.Exit(3)
+	})
 	switch *engine {
 	case "filterdiff":
 		filterdiff(w, *seed, *tier, stats)
